@@ -39,7 +39,8 @@ _c('C03', 'Proved on the step model: no instruction diverts a vehicle with passe
 _c('C05', 'Proved: a charge step derives one (kwh, price = kwh x tariff) and applies it to vehicle, station and event in one update; payment conserved; gained = level rise (kernels regenerated). '
           'Proved over ALL finite histories of step operations, any controller, from a loaded state (C05_books_over_histories, macro frame theorem): each vehicle\'s balance = initial + fares of its pickup events - prices of its '
           'charge events and its energy_gained grew by its charge events\' energies; each station\'s balance grew by the prices and its energy_dispensed (per energy type) by the energies of the charge events there. '
-          'PARTIAL: regrouping of the per-entity sums into fleet totals (ledger monitor).',
+          'Fleet totals (C05_fleet_totals): events name existing entities and the fleet never changes, so summed over the fleet the energy gained = the sum of charge-event energies = the per-type sums the stations report as dispensed, and fleet balance = fares - prices = what stations received. '
+          'Modelled: a vehicle books one energy type (its powertrain\'s); floats are Q.',
    'Coq proof: step model + translated payment/energy kernels + event-log accounting relation composed over operation histories (macro frame theorem); correspondence; ledger monitor')
 _c('C07', 'Proved: every accepted enter() (instruction of any controller or default transition) has established the location facts (vehicle at station/base; route starts at vehicle and ends at '
           'target); trips start at the origin and end at the destination. Proved over ALL finite histories of step operations, any controller (C07_places_over_histories, macro frame theorem): '
